@@ -521,10 +521,12 @@ class Gen:
         self.ops.append(list(op))
 
     # ---- state operators
-    def state_op(self):
+    def state_op(self, nested: bool = False):
         rng = self.rng
         r = rng.random()
-        if r < 0.12:
+        if not nested and r < 0.1:
+            self.q_block()
+        elif r < 0.12:
             self.emit("w", num(abs(dy(rng, 0, 8))))
         elif r < 0.22:
             n = rng.choice([0, 1, 2, 2, 3])
@@ -551,14 +553,7 @@ class Gen:
             else:
                 self.ns = cs_arity(self.cs, name)
         elif r < 0.78:
-            k = rng.choice(["sc", "scn", "SC", "SCN"])
-            n, pat = self.ss if k.isupper() else self.ns
-            if pat:
-                k = "SCN" if k.isupper() else "scn"
-                under = rng.choice([0, 0, 1, 3])
-                self.emit(k, *[num(F(rng.randint(0, 8), 8)) for _ in range(under)], "/P%d" % rng.randint(0, 3))
-            else:
-                self.emit(k, *[num(F(rng.randint(0, 8), 8)) for _ in range(n)])
+            self.set_color(rng.random() < 0.5)
         elif r < 0.86:
             self.emit("q")
             self.stack.append((self.ss, self.ns))
@@ -568,6 +563,32 @@ class Gen:
                 self.ss, self.ns = self.stack.pop()
         else:
             self.emit("cm", *[num(x) for x in gen_matrix(rng)])
+
+    def set_color(self, stroking: bool):
+        rng = self.rng
+        n, pat = self.ss if stroking else self.ns
+        if pat:
+            k = "SCN" if stroking else "scn"
+            under = rng.choice([0, 0, 1, 3])
+            self.emit(k, *[num(F(rng.randint(0, 8), 8)) for _ in range(under)], "/P%d" % rng.randint(0, 3))
+        else:
+            k = rng.choice(["SC", "SCN"] if stroking else ["sc", "scn"])
+            self.emit(k, *[num(F(rng.randint(0, 8), 8)) for _ in range(n)])
+
+    def q_block(self):
+        """q, change colour space / colours / width / dash / CTM inside, paint, Q, then use the outer state."""
+        rng = self.rng
+        self.emit("q")
+        self.stack.append((self.ss, self.ns))
+        for _ in range(rng.randint(1, 4)):
+            self.state_op(nested=True)
+        if rng.random() < 0.6:
+            self.path_object()
+        self.emit("Q")
+        if self.stack:
+            self.ss, self.ns = self.stack.pop()
+        if rng.random() < 0.8:
+            self.set_color(rng.random() < 0.5)
 
     # ---- one sub-path
     def subpath(self):
